@@ -123,7 +123,7 @@ func rewriteCallSites(repo string, pkgs []string, tbl map[string]string, harness
 				}
 			}
 			// drop imports that are no longer used
-			for _, imp := range file.Imports {
+			for _, imp := range append([]*ast.ImportSpec{}, file.Imports...) { // deletion edits file.Imports
 				ipath := strings.Trim(imp.Path.Value, `"`)
 				if imp.Name != nil && (imp.Name.Name == "_" || imp.Name.Name == "." || strings.HasPrefix(imp.Name.Name, "zzredir")) {
 					continue
